@@ -88,6 +88,7 @@ func applyWorldOverrides(wf *gql.Features, on, off featSet) {
 	set("subscriptions", &wf.Subscriptions)
 	set("value-union", &wf.ValueUnion)
 	set("weird-ids", &wf.WeirdIDs)
+	set("id-only-entity", &wf.IDOnlyEntity)
 	set("shared-root-name", &wf.SharedRootName)
 	set("empty-abstract", &wf.EmptyAbstract)
 }
@@ -116,6 +117,7 @@ func applyOpOverrides(of *gql.OpFeatures, on, off featSet) {
 	set("inline-fragments", &of.InlineFragments)
 	set("typename", &of.Typename)
 	set("root-typename", &of.RootTypename)
+	set("root-introspection", &of.RootIntrospect)
 	set("node-root", &of.NodeRoot)
 	set("multi-op", &of.MultiOp)
 	set("dup-fields", &of.DupFields)
@@ -169,6 +171,10 @@ func scenFED(s *sched.Sim, cfg Config, res *Result) {
 		res.Anomaly = "gateway start-up failed on a generated world: " + err.Error() + "\n" + w.Describe()
 		return
 	}
+	sizeCap := 3000
+	if cfg.Thorough {
+		sizeCap = 12000
+	}
 	nOps := 1 + s.T.Choose(3)
 	overlap := s.T.Bool(1, 2)
 	var ops []*fedOp
@@ -180,6 +186,13 @@ func scenFED(s *sched.Sim, cfg Config, res *Result) {
 		op := gql.GenOp(s.T, w, w.Union, kind, of, maxDepth, 24)
 		fo := &fedOp{op: op, client: fmt.Sprintf("c%d", i)}
 		fo.want = env.reference(op)
+		// nested lists multiply: an answer with tens of thousands of values means thousands of
+		// goroutines per level and costs minutes of scheduling without reaching anything new
+		for d := maxDepth - 2; d >= 2 && kind == ast.Query && jsonSize(gql.ToJSONValue(fo.want)) > sizeCap; d -= 2 {
+			res.Probe("fed.answer-too-large-redrawn")
+			fo.op = gql.GenOp(s.T, w, w.Union, kind, of, d, 24)
+			fo.want = env.reference(fo.op)
+		}
 		ops = append(ops, fo)
 	}
 	{
